@@ -169,6 +169,14 @@ def walk_obligations(S, v, m, tol=None):
 def run_walk(unit):
     S = unit['S']
     cfg = {'harness': 'layerwalk', 'S': S}
+    if unit.get('after'):
+        # a history in one process: a walk with more segments has run before (its interface temperatures must not survive into this one)
+        cfg['after a walk with segments'] = unit['after']
+        S0 = unit['after']
+        m0 = base_model(4, S0, 2, 2)
+        install_walk(m0, S0, dict({'Tsurf': 15.0, 'Tmax': 400.0, 'depth': 6000.0}, **{f'gradient[{i}]': 0.03 + 0.01 * i for i in range(S0)},
+                                  **{f'thickness[{i}]': 800.0 + 300.0 * i for i in range(S0 - 1)}))
+        R.Reservoir.Calculate.__wrapped__(m0.reserv, m0)
     log = harness.UnitLog(cfg)
 
     def drive(v, symbolic):
@@ -552,6 +560,7 @@ def _ge(a, b):
 # -------------------------------------------------------------------------------------------------------------
 def units(tier, seed):
     us = [{'harness': 'layerwalk', 'S': S} for S in (1, 2, 3, 4)]
+    us += [{'harness': 'layerwalk', 'S': 2, 'after': 4}] + ([{'harness': 'layerwalk', 'S': 3, 'after': 4}, {'harness': 'layerwalk', 'S': 1, 'after': 3}] if tier == 'thorough' else [])
     us += [{'harness': 'layerwalk-input', 'S': S} for S in (1, 2)]      # (S = 3 exceeds 8000 paths: every input line forks on '== default' and '== current value')
     for (L, T) in NS[tier]:
         for model in (1, 2, 3, 4):
